@@ -128,8 +128,17 @@ enum Kind {
     TCal,
     /// block rendered through `State::render_block` by a function that swallows the error
     TBlk,
+    /// includes that find nothing and are forgiven (`ignore missing`): single name and list
+    SeqN,
+    /// include of a list whose first candidate does not exist
+    SeqH,
+    /// `import … as`
+    SeqP,
+    /// `if` whose condition has internal jumps (and / or / chained comparison), followed by an
+    /// inline `a if c else b`
+    IfA,
 }
-const KINDS: [(Kind, &str); 25] = [
+const KINDS: [(Kind, &str); 29] = [
     (Kind::For, "for"),
     (Kind::ForE, "fore"),
     (Kind::ForEl, "forEl"),
@@ -155,6 +164,10 @@ const KINDS: [(Kind, &str); 25] = [
     (Kind::TMac, "tmac"),
     (Kind::TCal, "tcal"),
     (Kind::TBlk, "tblk"),
+    (Kind::SeqN, "seqN"),
+    (Kind::SeqH, "seqH"),
+    (Kind::SeqP, "seqP"),
+    (Kind::IfA, "ifa"),
 ];
 
 #[derive(Clone, Copy, PartialEq, Eq, Debug)]
@@ -357,13 +370,20 @@ impl Shape {
         let opt = |on: bool, tag: char| if on { String::new() } else { piece_src(d, tag) };
         let a = opt(
             bare && !in_else
-                && !matches!(self.kinds[i], Kind::SeqW | Kind::SeqS | Kind::SeqA | Kind::SeqL | Kind::SeqI | Kind::SeqM),
+                && !matches!(
+                    self.kinds[i],
+                    Kind::SeqW | Kind::SeqS | Kind::SeqA | Kind::SeqL | Kind::SeqI | Kind::SeqM | Kind::SeqN | Kind::SeqH | Kind::SeqP
+                ),
             'A',
         );
         let b = opt(bare && !in_else, 'B');
         let e = opt(bare && in_else, 'E');
         let f = opt(bare && in_else, 'F');
-        let c = piece_src(d, 'C');
+        // closure write-through probe around the construct under test: a macro that reads `cv` is
+        // declared in front of it, `cv` is re-assigned behind it (in the same frame) and the macro
+        // called: the frame's closure must still be attached on every way through the construct
+        write!(s, "{{% set cv = 'o' %}}{{% macro cm{d}() %}}{{{{ cv }}}}{{% endmacro %}}").unwrap();
+        let c = format!("{{% set cv = 'n{d}' %}}{{{{ cm{d}() }}}}{}", piece_src(d, 'C'));
         let mut child = String::new();
         self.src_at(i + 1, &mut child);
         match self.kinds[i] {
@@ -379,6 +399,10 @@ impl Shape {
             Kind::Ae0 => write!(s, "{{% autoescape false %}}{a}{child}{b}{{% endautoescape %}}{c}"),
             Kind::IfC => write!(s, "{{% if c %}}{a}{child}{b}{{% endif %}}{c}"),
             Kind::IfK => write!(s, "{{% if x == k %}}{a}{child}{b}{{% endif %}}{c}"),
+            Kind::IfA => write!(
+                s,
+                "{{% if c and x is defined or 3 < k < 9 %}}{a}{child}{b}{{% endif %}}{{{{ 'y' if c else 'n' }}}}{c}"
+            ),
             Kind::IfEl => write!(s, "{{% if c %}}{a}{{% else %}}{e}{child}{f}{{% endif %}}{c}"),
             Kind::Mac => write!(s, "{{% macro m{d}() %}}{a}{child}{b}{{% endmacro %}}{{{{ m{d}() }}}}{c}"),
             Kind::Call => write!(
@@ -392,9 +416,15 @@ impl Shape {
             Kind::SeqL => write!(s, "{{% for y in [1] %}}{a}{{% endfor %}}{child}{c}"),
             Kind::SeqI => write!(s, "{{% include 'inc.txt' %}}{{% include 'inc.html' %}}{child}{c}"),
             Kind::SeqM => write!(s, "{{% from 'lib.txt' import lm %}}{{{{ lm(1) }}}}{child}{c}"),
+            Kind::SeqN => write!(
+                s,
+                "{{% include 'nope.txt' ignore missing %}}{{% include ['n1.txt', 'n2.txt'] ignore missing %}}{child}{c}"
+            ),
+            Kind::SeqH => write!(s, "{{% include ['nope.txt', 'inc.txt'] %}}{child}{c}"),
+            Kind::SeqP => write!(s, "{{% import 'lib.txt' as lb %}}{{{{ lb.lm(1) }}}}{child}{c}"),
             Kind::TMac => write!(
                 s,
-                "{{% macro n{d}(ma) %}}{a}{child}{b}{{% endmacro %}}{{{{ try_call(n{d}, 'a{d}') }}}}{c}"
+                "{{% macro n{d}(ma, mb='q') %}}{a}{child}{b}{{% endmacro %}}{{{{ try_call(n{d}, 'a{d}') }}}}{c}"
             ),
             Kind::TCal => write!(
                 s,
@@ -454,6 +484,8 @@ struct Params {
     /// the engine runs the else branch of a loop that was left by `break` during its first
     /// iteration (a C03 matter); both behaviours are accepted by this oracle
     else_after_first_break: bool,
+    /// the environment's auto-escape callback turns escaping on for every template
+    base_ae: bool,
 }
 
 struct Spec<'a> {
@@ -636,6 +668,15 @@ impl Spec<'_> {
                     return f;
                 }
             }
+            Kind::IfA => {
+                if self.p.c && sc.x != XVal::Undef {
+                    let f = self.body(i, 'A', 'B', sc, out);
+                    if f != Flow::Normal {
+                        return f;
+                    }
+                }
+                out.push_str(if self.p.c { "y" } else { "n" });
+            }
             Kind::IfC | Kind::IfK => {
                 let cond = if self.shape.kinds[i] == Kind::IfC { self.p.c } else { sc.x == XVal::Int(self.p.k) };
                 if cond {
@@ -711,9 +752,14 @@ impl Spec<'_> {
                     return f;
                 }
             }
-            Kind::SeqI | Kind::SeqM => {
+            Kind::SeqI | Kind::SeqM | Kind::SeqN | Kind::SeqH | Kind::SeqP => {
                 // the included templates have their own auto-escape mode (by file name)
-                out.push_str(if self.shape.kinds[i] == Kind::SeqI { "i1<&lt;" } else { "m" });
+                out.push_str(match self.shape.kinds[i] {
+                    Kind::SeqI => if self.p.base_ae { "i1&lt;&lt;" } else { "i1<&lt;" },
+                    Kind::SeqH => if self.p.base_ae { "i1&lt;" } else { "i1<" },
+                    Kind::SeqN => "",
+                    _ => "m",
+                });
                 let f = self.node(i + 1, sc, out);
                 if f != Flow::Normal {
                     return f;
@@ -733,13 +779,15 @@ impl Spec<'_> {
                 }
             }
         }
+        // the macro declared in front of the construct sees the assignment made behind it
+        write!(out, "n{d}").unwrap();
         self.piece(d, 'C', sc, out);
         Flow::Normal
     }
 
     fn run(shape: &Shape, p: &Params) -> Option<String> {
         let mut sp = Spec { shape, p, stray: false };
-        let sc = Scope { ae: false, w: None, x: XVal::Undef, ma: None, block: None };
+        let sc = Scope { ae: p.base_ae, w: None, x: XVal::Undef, ma: None, block: None };
         let mut out = String::new();
         sp.piece(0, 'S', &sc, &mut out);
         let f = sp.node(0, &sc, &mut out);
@@ -765,9 +813,81 @@ fn last_panic_location() -> String {
     LAST_PANIC.with(|x| x.borrow().clone())
 }
 
+/// environment configurations the shapes are rendered under
+#[derive(Clone, Copy, PartialEq, Eq, Debug)]
+enum Cfg {
+    Default,
+    /// `UndefinedBehavior::Chainable`
+    Chainable,
+    /// a custom formatter (the `Emit` path through `Environment::format`)
+    Formatter,
+    /// auto-escape callback: HTML for every template
+    AeHtml,
+    /// `<% %>`, `<< >>`, `<# #>` delimiters
+    CustomSyntax,
+    DebugOff,
+    /// every template (the shape included) comes from a loader
+    Loader,
+    NoFuel,
+}
+const CFGS: [(Cfg, &str); 8] = [
+    (Cfg::Default, "default"),
+    (Cfg::Chainable, "chainable"),
+    (Cfg::Formatter, "formatter"),
+    (Cfg::AeHtml, "ae-html"),
+    (Cfg::CustomSyntax, "custom-syntax"),
+    (Cfg::DebugOff, "debug-off"),
+    (Cfg::Loader, "loader"),
+    (Cfg::NoFuel, "no-fuel"),
+];
+
+const HELPERS: [(&str, &str); 4] = [
+    (
+        "inc.txt",
+        "{% with q = 1 %}{% for z in [1, 2] %}{% if z == 2 %}{% break %}{% endif %}i{{ z }}{% endfor %}{% endwith %}{{ h }}",
+    ),
+    ("inc.html", "{{ h }}"),
+    (
+        "bad.html",
+        "{% with y = 1 %}{% autoescape false %}{% set c %}x{% for i in [1] %}{{ fail() }}{% endfor %}{% endset %}{% endautoescape %}{% endwith %}",
+    ),
+    ("lib.txt", "{% macro lm(a) %}{% set t %}m{% endset %}{{ t }}{% endmacro %}"),
+];
+
+/// the template sources in the delimiters of the configuration
+fn syn(cfg: Cfg, src: &str) -> String {
+    if cfg == Cfg::CustomSyntax {
+        src.replace("{%", "<%").replace("%}", "%>").replace("{{", "<<").replace("}}", ">>")
+    } else {
+        src.to_string()
+    }
+}
+
 fn shape_env() -> Environment<'static> {
+    shape_env_cfg(Cfg::Default, None)
+}
+
+fn shape_env_cfg(cfg: Cfg, shape_src: Option<&str>) -> Environment<'static> {
     let mut env = Environment::new();
-    env.set_fuel(Some(200_000));
+    if cfg != Cfg::NoFuel {
+        env.set_fuel(Some(200_000));
+    }
+    match cfg {
+        Cfg::Chainable => env.set_undefined_behavior(UndefinedBehavior::Chainable),
+        Cfg::Formatter => env.set_formatter(|out, state, value| minijinja::escape_formatter(out, state, value)),
+        Cfg::AeHtml => env.set_auto_escape_callback(|_| minijinja::AutoEscape::Html),
+        Cfg::CustomSyntax => {
+            let syntax = minijinja::syntax::SyntaxConfig::builder()
+                .block_delimiters("<%", "%>")
+                .variable_delimiters("<<", ">>")
+                .comment_delimiters("<#", "#>")
+                .build()
+                .unwrap();
+            env.set_syntax(syntax);
+        }
+        Cfg::DebugOff => env.set_debug(false),
+        _ => {}
+    }
     env.add_filter("fz", |v: Value| -> Value {
         let s = format!("({})", v);
         if v.is_safe() {
@@ -812,20 +932,39 @@ fn shape_env() -> Environment<'static> {
     env.add_function("probe", |state: &minijinja::State| -> String {
         format!("{}~{}", state.name(), state.current_block().unwrap_or("-"))
     });
-    env.add_template(
-        "inc.txt",
-        "{% with q = 1 %}{% for z in [1, 2] %}{% if z == 2 %}{% break %}{% endif %}i{{ z }}{% endfor %}{% endwith %}{{ h }}",
-    )
-    .unwrap();
-    env.add_template("inc.html", "{{ h }}").unwrap();
-    env.add_template(
-        "bad.html",
-        "{% with y = 1 %}{% autoescape false %}{% set c %}x{% for i in [1] %}{{ fail() }}{% endfor %}{% endset %}{% endautoescape %}{% endwith %}",
-    )
-    .unwrap();
-    env.add_template("lib.txt", "{% macro lm(a) %}{% set t %}m{% endset %}{{ t }}{% endmacro %}").unwrap();
+    if cfg == Cfg::Loader {
+        let mut map: BTreeMap<String, String> = HELPERS.iter().map(|(n, s)| (n.to_string(), s.to_string())).collect();
+        if let Some(src) = shape_src {
+            map.insert("shape.txt".to_string(), src.to_string());
+        }
+        env.set_loader(move |name| Ok(map.get(name).cloned()));
+    } else {
+        for (n, src) in HELPERS.iter() {
+            env.add_template_owned(n.to_string(), syn(cfg, src)).unwrap();
+        }
+        if let Some(src) = shape_src {
+            let _ = env.add_template_owned("shape.txt".to_string(), syn(cfg, src));
+        }
+    }
     env
 }
+
+/// how the template is run
+#[derive(Clone, Copy, PartialEq, Eq, Debug)]
+enum Entry {
+    Render,
+    ToWrite,
+    /// `render_captured`, then `call_macro` and `render_block` on the captured state
+    Captured,
+    /// `template_from_named_str`
+    FromStr,
+}
+const ENTRIES: [(Entry, &str); 4] = [
+    (Entry::Render, "render"),
+    (Entry::ToWrite, "render_captured_to+call_macro"),
+    (Entry::Captured, "render_captured+call_macro+render_block"),
+    (Entry::FromStr, "template_from_named_str"),
+];
 
 fn engine_ctx(p: &Params) -> Value {
     let tree = Value::from(minijinja::value::Serde(serde_json::json!([[[]], []])));
@@ -895,6 +1034,12 @@ fn nested_text(ms: &[balance::NestedMismatch]) -> String {
                     m.before.blocks, m.before.block_stacks, m.after.blocks, m.after.block_stacks
                 ));
             }
+            if m.before.frame_closures != m.after.frame_closures {
+                d.push(format!("closures {:?}->{:?}", m.before.frame_closures, m.after.frame_closures));
+            }
+            if m.before.frame_loops != m.after.frame_loops {
+                d.push(format!("loops {:?}->{:?}", m.before.frame_loops, m.after.frame_loops));
+            }
             if m.before.loaded_templates != m.after.loaded_templates {
                 d.push(format!("loaded {}->{}", m.before.loaded_templates, m.after.loaded_templates));
             }
@@ -906,13 +1051,13 @@ fn nested_text(ms: &[balance::NestedMismatch]) -> String {
 
 fn params_for(shape: &Shape) -> Vec<Params> {
     let uses_xs = shape.kinds.iter().any(|k| matches!(k, Kind::For | Kind::ForE | Kind::ForEl | Kind::ForF));
-    let uses_c = shape.kinds.iter().any(|k| matches!(k, Kind::IfC | Kind::IfEl));
+    let uses_c = shape.kinds.iter().any(|k| matches!(k, Kind::IfC | Kind::IfEl | Kind::IfA));
     let uses_k = shape.kinds.iter().any(|k| matches!(k, Kind::IfK)) || shape.leaf == Leaf::FailK;
     let mut v = vec![];
     for xs in if uses_xs { vec![vec![], vec![1, 2, 3]] } else { vec![vec![1, 2, 3]] } {
         for c in if uses_c { vec![true, false] } else { vec![true] } {
             for k in if uses_k { vec![1, 2] } else { vec![1] } {
-                v.push(Params { xs: xs.clone(), c, k, else_after_first_break: false });
+                v.push(Params { xs: xs.clone(), c, k, else_after_first_break: false, base_ae: false });
             }
         }
     }
@@ -924,7 +1069,15 @@ fn params_name(p: &Params) -> String {
 }
 
 /// renders one shape under one context on the real engine and judges the result
-fn run_dynamic(env: &Environment<'_>, tmpl_name: &str, shape: &Shape, p: &Params, verbose: bool) -> String {
+fn run_dynamic(
+    env: &Environment<'_>,
+    tmpl_name: &str,
+    shape: &Shape,
+    p: &Params,
+    entry: Entry,
+    src: &str,
+    verbose: bool,
+) -> String {
     let spec_a = Spec::run(shape, p);
     let mut p2 = p.clone();
     p2.else_after_first_break = true;
@@ -934,10 +1087,64 @@ fn run_dynamic(env: &Environment<'_>, tmpl_name: &str, shape: &Shape, p: &Params
     let _ = balance::take_nested_mismatches();
     let _ = balance::take_nested_counters();
     let ctx = engine_ctx(p);
+    let expect_ok = spec_a.as_ref().map_or(false, |a| a != "!RENDER-ERROR");
+    let mut extra: Vec<String> = vec![];
     let res = guarded(|| {
         let t = env.get_template(tmpl_name).unwrap();
-        t.render(ctx)
+        match entry {
+            Entry::Render => (t.render(ctx), vec![]),
+            Entry::ToWrite => {
+                let mut buf: Vec<u8> = vec![];
+                match t.render_captured_to(ctx, &mut buf) {
+                    Err(e) => (Err(e), vec![]),
+                    Ok(mut cap) => {
+                        let mut ex = vec![];
+                        cap.with_state_mut(|state| match state.call_macro("cm1", &[]) {
+                            Ok(s) if s == "n1" => {}
+                            other => ex.push(format!("call_macro(cm1)={:?}", other.map_err(|e| e.kind()))),
+                        });
+                        (Ok(String::from_utf8(buf).unwrap()), ex)
+                    }
+                }
+            }
+            Entry::FromStr => {
+                let t2 = env.template_from_named_str(tmpl_name, src).unwrap();
+                (t2.render(ctx), vec![])
+            }
+            Entry::Captured => match t.render_captured(ctx) {
+                Err(e) => (Err(e), vec![]),
+                Ok(mut cap) => {
+                    let out = cap.output().to_string();
+                    let mut ex = vec![];
+                    let blocks: Vec<String> = get_compiled_template(&t).blocks.keys().map(|x| x.to_string()).collect();
+                    cap.with_state_mut(|state| {
+                        // the macro declared at the top level still sees the last assignment of `cv`
+                        match state.call_macro("cm1", &[]) {
+                            Ok(s) if s == "n1" => {}
+                            other => ex.push(format!("call_macro(cm1)={:?}", other.map_err(|e| e.kind()))),
+                        }
+                        for b in blocks.iter() {
+                            let _ = state.render_block(b);
+                        }
+                        match state.call_macro("cm1", &[]) {
+                            Ok(s) if s == "n1" => {}
+                            other => ex.push(format!("call_macro(cm1) after render_block={:?}", other.map_err(|e| e.kind()))),
+                        }
+                    });
+                    (Ok(out), ex)
+                }
+            },
+        }
     });
+    let res: Result<Result<String, minijinja::Error>, String> = match res {
+        Ok((r, ex)) => {
+            if expect_ok {
+                extra = ex;
+            }
+            Ok(r)
+        }
+        Err(p) => Err(p),
+    };
     let ms = balance::take_mismatches();
     let nms = balance::take_nested_mismatches();
     let (started, finished) = balance::take_counters();
@@ -953,6 +1160,9 @@ fn run_dynamic(env: &Environment<'_>, tmpl_name: &str, shape: &Shape, p: &Params
     if !nms.is_empty() {
         fails.push(format!("nested-not-restored[{}]", nested_text(&nms)));
     }
+    for e in extra {
+        fails.push(format!("entry-point[{}]", e));
+    }
     let expects_failures = matches!(shape.leaf, Leaf::Fail | Leaf::FailK | Leaf::FailInc);
     match (&res, &spec_a) {
         (Err(_), _) => fails.push(format!("panic@{}", last_panic_location())),
@@ -963,6 +1173,7 @@ fn run_dynamic(env: &Environment<'_>, tmpl_name: &str, shape: &Shape, p: &Params
                 return "skip:stray-loop-control".into();
             }
         }
+        (Ok(Ok(got)), Some(_)) if got == "!NO-OUTPUT" => {}
         (Ok(Ok(got)), Some(a)) => {
             // what happens to text that was captured before a `break`/`continue` left the capture
             // is not the property's business (the engine drops it, like the reference does): for
@@ -985,6 +1196,12 @@ fn run_dynamic(env: &Environment<'_>, tmpl_name: &str, shape: &Shape, p: &Params
 }
 
 fn do_shape(out: &mut impl std::io::Write, shape: &Shape, verbose: bool) -> bool {
+    do_shape_n(out, shape, verbose, None)
+}
+
+/// `idx`: position of the shape in the enumeration; selects the extra environment configuration
+/// and the extra entry point the shape is also run under (`None`: all of them)
+fn do_shape_n(out: &mut impl std::io::Write, shape: &Shape, verbose: bool, idx: Option<usize>) -> bool {
     let name = shape.name();
     let class = shape.class();
     let src = shape.source();
@@ -1009,11 +1226,58 @@ fn do_shape(out: &mut impl std::io::Write, shape: &Shape, verbose: bool) -> bool
     if verbose {
         eprintln!("source: {}", src);
     }
-    for p in params_for(shape) {
-        let r = run_dynamic(&env, tname, shape, &p, verbose);
-        writeln!(out, "R\t{}\t{}\t{}\t{}", name, class, params_name(&p), r).unwrap();
+    let params = params_for(shape);
+    for p in params.iter() {
+        let r = run_dynamic(&env, tname, shape, p, Entry::Render, &src, verbose);
+        writeln!(out, "R\t{}\t{}\t{}\t{}", name, class, params_name(p), r).unwrap();
+    }
+    // the same shape through other entry points and under other environment configurations
+    let last = params.last().unwrap().clone();
+    let entries: Vec<(Entry, &str)> = match idx {
+        Some(i) => vec![ENTRIES[1 + i % (ENTRIES.len() - 1)]],
+        None => ENTRIES[1..].to_vec(),
+    };
+    for (entry, ename) in entries {
+        let r = run_dynamic(&env, tname, shape, &last, entry, &src, verbose);
+        writeln!(out, "R\t{}\t{}\t{} entry={}\t{}", name, class, params_name(&last), ename, r).unwrap();
+    }
+    let cfgs: Vec<(Cfg, &str)> = match idx {
+        Some(i) => vec![CFGS[1 + i % (CFGS.len() - 1)]],
+        None => CFGS[1..].to_vec(),
+    };
+    for (cfg, cname) in cfgs {
+        let env2 = shape_env_cfg(cfg, Some(&src));
+        if env2.get_template(tname).is_err() {
+            writeln!(out, "R\t{}\t{}\t{} cfg={}\tfail:does-not-compile-under-configuration", name, class, params_name(&last), cname).unwrap();
+            continue;
+        }
+        let mut p2 = last.clone();
+        p2.base_ae = cfg == Cfg::AeHtml;
+        let r = run_dynamic(&env2, tname, shape, &p2, Entry::Render, &syn(cfg, &src), verbose);
+        writeln!(out, "R\t{}\t{}\t{} cfg={}\t{}", name, class, params_name(&last), cname, r).unwrap();
     }
     true
+}
+
+fn is_core(k: Kind) -> bool {
+    matches!(
+        k,
+        Kind::For
+            | Kind::ForE
+            | Kind::ForEl
+            | Kind::ForR
+            | Kind::With
+            | Kind::Set
+            | Kind::Ae1
+            | Kind::IfC
+            | Kind::IfK
+            | Kind::Mac
+            | Kind::Call
+            | Kind::Blk
+            | Kind::TMac
+            | Kind::TBlk
+            | Kind::SeqN
+    )
 }
 
 fn enumerate(max_depth: usize, f: &mut impl FnMut(&Shape)) {
@@ -1028,6 +1292,11 @@ fn enumerate(max_depth: usize, f: &mut impl FnMut(&Shape)) {
         }
         if kinds.len() < max_depth {
             for (k, _) in KINDS.iter() {
+                // beyond depth 3 the exhaustive enumeration is restricted to the core kinds (the
+                // other kinds are variations of them and appear in the sampled deeper chains)
+                if kinds.len() + 1 > 3 && !(kinds.iter().all(|x| is_core(*x)) && is_core(*k)) {
+                    continue;
+                }
                 kinds.push(*k);
                 rec(kinds, max_depth, f);
                 kinds.pop();
@@ -1356,8 +1625,10 @@ fn main() {
                     dump_template(&mut out, &format!("extra:shape-helpers/{}", n), "extra", &env.get_template(n).unwrap());
                 }
             }
+            let mut count = 0usize;
             enumerate(depth, &mut |s| {
-                do_shape(&mut out, s, false);
+                do_shape_n(&mut out, s, false, Some(count));
+                count += 1;
             });
             // seeded sample of deeper nestings
             let mut rng = Rng::new(seed_from_env());
@@ -1382,7 +1653,7 @@ fn main() {
                     _ => if rng.chance(1, 2) { Leaf::Fail } else { Leaf::FailK },
                 };
                 let s = Shape { kinds, leaf };
-                if s.admissible() && do_shape(&mut out, &s, false) {
+                if s.admissible() && do_shape_n(&mut out, &s, false, Some(tries)) {
                     done += 1;
                 }
             }
@@ -1409,7 +1680,7 @@ fn main() {
                     let t = env.get_template("src.txt").unwrap();
                     dump_template(&mut out, &format!("src:{}", path), "src", &t);
                     let _ = balance::take_mismatches();
-                    let p = Params { xs: vec![1, 2, 3], c: true, k: 1, else_after_first_break: false };
+                    let p = Params { xs: vec![1, 2, 3], c: true, k: 1, else_after_first_break: false, base_ae: false };
                     let res = guarded(|| t.render(engine_ctx(&p)));
                     let ms = balance::take_mismatches();
                     writeln!(out, "render: {:?}\nmismatches: [{}]", res, mismatch_text(&ms)).unwrap();
